@@ -1059,6 +1059,12 @@ def symbolic_case(env: Env, c):
     if not unary and kb != "var":
         sb = []
 
+    op_mod = env.op
+    if c.get("opset"):
+        import importlib
+
+        op_mod = importlib.import_module(f"spox.opset.ai.onnx.v{c['opset']}")  # public modules
+
     def operand(name, dt, s_, runnable):
         """A Var of the given static type. `build` refuses model inputs of unknown rank, so for running
         the model an operand of unknown rank is a runtime Reshape of a flat input (static rank unknown)."""
@@ -1067,7 +1073,7 @@ def symbolic_case(env: Env, c):
             return v, {name: v}
         flat = env.spox.argument(env.spox.Tensor(dt, (f"n_{name}",)))
         shp = env.spox.argument(env.spox.Tensor(np.int64, (f"r_{name}",)))
-        return env.op.reshape(flat, shp), {name: flat, f"{name}_shape": shp}
+        return op_mod.reshape(flat, shp), {name: flat, f"{name}_shape": shp}
 
     def show(dt, s_):
         return f"Var[{dt.name}, shape={'unknown rank' if s_ is None else tuple(s_)}]"
@@ -1079,12 +1085,30 @@ def symbolic_case(env: Env, c):
         expr += f"  [as right.{RDUNDER[opname]}(left)]"
     elif form == "swapped":
         expr = f"{b!r} {SYM[opname]} {show(dta, sa)}"
+    if c.get("same"):
+        expr += "  [the same Var on both sides]"
+    if c.get("opset") or c.get("ambient"):
+        expr += f"  [operator_overloading(v{c.get('opset', 17)}){', inside ' + c['ambient'] if c.get('ambient') else ''}]"
     runtime = sym_runtime_shapes(np, sa, [] if unary else sb, pick=c.get("pick"))
+    if c.get("same"):
+        runtime = [(ra, ra) for ra, _ in sym_runtime_shapes(np, sa, [], pick=c.get("pick"))]
     if not runtime:
         return []  # statically incompatible for all conforming values: the statement makes no demand
 
+    import contextlib
+
+    def ambient():
+        """An unrelated scoped setting around the operator application: the answer must not depend on it."""
+        amb = c.get("ambient")
+        if not amb:
+            return contextlib.nullcontext()
+        kind, _, val = amb.partition(":")
+        if kind == "vp":
+            return env.fut.value_prop_backend(getattr(env.fut.ValuePropBackend, val))
+        return env.fut.type_warning_level(getattr(env.fut.TypeWarningLevel, val))
+
     def construct(a, b):
-        with env.fut.operator_overloading(env.op, type_promotion=settings[0], constant_promotion=settings[1]):
+        with ambient(), env.fut.operator_overloading(op_mod, type_promotion=settings[0], constant_promotion=settings[1]):
             if unary:
                 r = PYOP[opname](a)
             elif form == "reflected":
@@ -1102,7 +1126,9 @@ def symbolic_case(env: Env, c):
             warnings.simplefilter("ignore")
             for runnable in ((False, True) if (sa is None or (sb is None and not unary)) else (True,)):
                 a, feeds_vars = operand("a", dta, sa, runnable)
-                if not unary and kb == "var":
+                if not unary and kb == "var" and c.get("same"):
+                    b = a  # ONE Var in both slots
+                elif not unary and kb == "var":
                     b, fv = operand("b", dtb, sb, runnable)
                     feeds_vars.update(fv)
                 r = construct(a, b)
@@ -1119,7 +1145,7 @@ def symbolic_case(env: Env, c):
     with warnings.catch_warnings():
         warnings.simplefilter("ignore")
         if claimed is None:  # `build` refuses results of unknown rank too: hand out the flattened result and its shape
-            outs = {"r": env.op.reshape(r, env.op.const(np.array([-1], dtype=np.int64))), "r_shape": env.op.shape(r)}
+            outs = {"r": op_mod.reshape(r, op_mod.const(np.array([-1], dtype=np.int64))), "r_shape": op_mod.shape(r)}
         else:
             outs = {"r": r}
         model = env.spox.build(feeds_vars, outs)
@@ -1139,6 +1165,8 @@ def symbolic_case(env: Env, c):
         feeds = feed("a", xa)
         if unary:
             na, nb = xa, None
+        elif kb == "var" and c.get("same"):
+            na, nb = xa, xa
         elif kb == "var":
             xb = fill(dtb, rb, 3)
             feeds.update(feed("b", xb))
@@ -1216,6 +1244,17 @@ def gen_symbolic(rng, n_random, ND):
                       "form": "swapped" if k % 2 else "op", "pick": k})
         cases.append({"op": "neg", "da": rng.choice([0, 1, 2, 3, 8, 9, 10]), "sa": sa, "settings": rng.choice(SETTINGS[1:]), "pick": k})
         cases.append({"op": "not_", "da": 11, "sa": sb, "settings": rng.choice(SETTINGS[1:]), "pick": k})
+        # ONE Var in both operand slots
+        opname = (BIN + LOGIC)[k % 8]
+        d = 11 if opname in LOGIC else rng.choice(num)
+        cases.append({"op": opname, "da": d, "db": d, "sa": sa, "sb": sa, "same": True, "settings": rng.choice(SETTINGS[1:]), "pick": k})
+    ambients = [None, None, "vp:NONE", "vp:ONNXRUNTIME", "vp:REFERENCE", "tw:NONE", "tw:CRITICAL", "tw:OUTPUTS"]
+    for i, c_ in enumerate(cases):
+        # every opset module of ai.onnx, every value of the two unrelated scoped settings
+        c_["opset"] = [17, 18, 19, 20, 21][(i + i // 5) % 5]
+        amb = ambients[(i + i // 8) % 8]
+        if amb:
+            c_["ambient"] = amb
     return cases
 
 
@@ -1575,7 +1614,7 @@ def run(ck: core.Check):
 
 
     # ------------------------------------------------------------------ symbolic static shapes (named / anonymous dims, unknown rank)
-    sym_cases = gen_symbolic(rng, 400 if boost else ck.pick(36, 400), ND)
+    sym_cases = gen_symbolic(rng, 200 if boost else ck.pick(36, 400), ND)
     sym_stats = {"cases": len(sym_cases), "with_runtime_inputs": 0, "dispatch_mismatches": 0}
     # (a) the dispatch decision must not depend on the static shapes (the model is shape-blind)
     sym_disp = [c for c in sym_cases if c.get("kb", "var") == "var" and c.get("form", "op") == "op"
@@ -1621,7 +1660,7 @@ def run(ck: core.Check):
         ck.broken("generator", "C17 symbolic shapes starved", str(sym_stats))
 
     # ------------------------------------------------------------------ expression histories (hidden state)
-    n_hist_v, n_hist_c = (600, 1000) if boost else (ck.pick(150, 1500), ck.pick(250, 2500))
+    n_hist_v, n_hist_c = (400, 600) if boost else (ck.pick(150, 1500), ck.pick(250, 2500))
     hists_v = list(FIXED_HISTORIES) + [gen_history(rng, True) for _ in range(n_hist_v)]
     hists_c = list(FIXED_HISTORIES) + [gen_history(rng, False) for _ in range(n_hist_c)]
     hist_mism = 0
